@@ -1,0 +1,34 @@
+//go:build verif
+
+package cidlink
+
+// Contracts for govc (see /verif/DESIGN.md §5 C05, C06, C10). Comment-only;
+// compiled only under the build tag "verif".
+
+// usedlen: how many digest bytes go into the link: the whole digest for the identity multihash,
+// for an unspecified length (-1) and for a length the digest cannot satisfy, otherwise MhLength.
+//@ pure func usedlen(mhtype mathint, mhlength mathint, n mathint) mathint = (mhtype == 0 || mhlength < 0 || mhlength > n) ? n : mhlength
+
+//@ func (LinkPrototype).BuildLink(hashsum) (l)
+//@   requires lp.Prefix.Version == 1 || (lp.Prefix.Version == 0 && lp.Prefix.MhType == 18 && (lp.Prefix.MhLength == 32 || lp.Prefix.MhLength == 0 - 1))
+//@   assigns nothing
+//@   ensures[C05] dyntype(l, "Link")
+//@   ensures[C05] lp.Prefix.Version == 1 ==> unbox(l, "Link").Cid.str == cid.cidstr(1, lp.Prefix.Codec, multihash.mhseq(hash.bsrc(hashsum), usedlen(lp.Prefix.MhType, lp.Prefix.MhLength, len(hashsum)), lp.Prefix.MhType), io.blen(multihash.mhseq(hash.bsrc(hashsum), usedlen(lp.Prefix.MhType, lp.Prefix.MhLength, len(hashsum)), lp.Prefix.MhType)))
+//@   ensures[C05] lp.Prefix.Version == 0 ==> unbox(l, "Link").Cid.str == cid.cidstr(0, 112, multihash.mhseq(hash.bsrc(hashsum), usedlen(lp.Prefix.MhType, lp.Prefix.MhLength, len(hashsum)), lp.Prefix.MhType), io.blen(multihash.mhseq(hash.bsrc(hashsum), usedlen(lp.Prefix.MhType, lp.Prefix.MhLength, len(hashsum)), lp.Prefix.MhType)))
+
+// ---- the three choosers: codec and hash function are taken from the link prototype alone ----
+
+//@ func LinkSystemUsingMulticodecRegistry$1(lp) (e, err)
+//@   requires lp != nil
+//@   assigns nothing
+//@   ensures[C05] dyntype(lp, "LinkPrototype") && indom(mcReg.encoders, unbox(lp, "LinkPrototype").Prefix.Codec) ==> err == nil && e == mcReg.encoders[unbox(lp, "LinkPrototype").Prefix.Codec]
+//@   ensures[C05] !(dyntype(lp, "LinkPrototype") && indom(mcReg.encoders, unbox(lp, "LinkPrototype").Prefix.Codec)) ==> err != nil && e == nil
+
+//@ func LinkSystemUsingMulticodecRegistry$2(lnk) (d, err)
+//@   requires lnk != nil
+//@   ensures[C05] err == nil ==> dyntype(lp, "LinkPrototype") && indom(mcReg.decoders, unbox(lp, "LinkPrototype").Prefix.Codec) && d == mcReg.decoders[unbox(lp, "LinkPrototype").Prefix.Codec]
+
+//@ func LinkSystemUsingMulticodecRegistry$3(lp) (h, err)
+//@   requires lp != nil
+//@   ensures[C05,C20] err == nil ==> dyntype(lp, "LinkPrototype") && h != nil && fresh(h) && h.fed == 0
+//@   ensures[C05] !dyntype(lp, "LinkPrototype") ==> err != nil && h == nil
